@@ -28,6 +28,7 @@ EXTENDS Naturals, Sequences, FiniteSets, TLC
      list_graders [StringGrader(), StringGrader()], list_shapes [1,[3,2],2,'square']; tuple_str ('x','y'), tuple_num (1,2.5),
      tuple_int1 (3,), tuple_int2 (2,3), tuple_int3 (2,3,4); dict_fn_f {'f': f}, dict_fn_sin {'sin': f},
      dict_fn_rand {'f': RandomFunction()}, dict_fn_list {'f': [f,g]}, dict_const_c {'c': 3.5}, dict_const_x {'x': 3.5},
+     dict_fn_det {'det': f} (likewise adj, cross, ctrans, norm, trace, trans), list_infty ['infty'], dict_const_infty {'infty': 3.5},
      dict_const_pi {'pi': 3.5}, dict_const_del {'pi': None}, dict_const_arr {'A': MathArray([[1,2],[3,4]])}, dict_int_key {1: 3.5}, dict_str_str {'c': 'abc'},
      dict_sample_x {'x': [1,3]}, dict_range {'start': 2, 'stop': 4}, dict_asm {'is_raised': False, 'msg_detail': 'shape'},
      dict_asm_part {'is_raised': False}, dict_asm_bad {'is_raised': 'abc'}, dict_asm_unknown {'zz': 1}, dict_quad {'limit': 50};
@@ -48,6 +49,8 @@ StrG    == {"pct_ok", "pct_neg", "str", "str_empty", "str_char", "str_comma"}   
 StrNE   == StrG \ {"str_empty"}
 Enums   == {"enum_err", "enum_msg", "enum_type", "enum_shape", "enum_proportional", "enum_upper", "enum_lower",
             "enum_diagonal", "enum_symmetric", "enum_antisymmetric", "enum_hermitian", "enum_antihermitian"}
+\* {'det': f} ... : names of the functions functions_and_constants.md lists as MatrixGrader-only defaults
+MatrixFnKinds == {"dict_fn_adj", "dict_fn_cross", "dict_fn_ctrans", "dict_fn_det", "dict_fn_norm", "dict_fn_trace", "dict_fn_trans"}
 Callables    == {"callable_1", "callable_3"}                 \* plain functions of 1 / 3 arguments
 CallableObjs == {"grader_string", "grader_formula", "grader_numerical", "grader_matrix", "grader_single", "grader_list",
                  "credit_obj", "comparer_obj"}               \* objects that merely happen to be callable
@@ -65,7 +68,7 @@ Specific == Enums \cup Callables \cup CallableObjs \cup
              "dict_const_del", "dict_str_str", "dict_sample_x", "dict_range", "dict_asm", "dict_asm_part", "dict_asm_bad",
              "dict_asm_unknown", "dict_quad", "ans_ok", "ans_missing", "ans_extra", "ans_nonstr", "pos_partial", "pos_none",
              "pos_gap", "pos_repeat", "pos_unknown", "lans_ab", "sampler_discrete", "sampler_fn", "sampler_dependent", "matharray",
-             "dict_const_arr"}
+             "dict_const_arr", "list_infty", "dict_const_infty"} \cup MatrixFnKinds
 Kinds == Generic \cup Specific
 
 (* ====================================================================== option descriptors
@@ -111,9 +114,10 @@ StringGraderOpts == Ext(ItemGraderOpts,
 
 Tolerance(def) == O(IntsNN \cup FNN \cup {"pct_ok"}, {}, {}, def)      \* number or percentage, "positive or zero"
 MathOpts(samplesDef, tolDef) ==
-     "user_functions" :> O({"dict_empty", "dict_fn_f", "dict_fn_rand", "dict_fn_list", "dict_fn_sin"}, {},
+     "user_functions" :> O({"dict_empty", "dict_fn_f", "dict_fn_rand", "dict_fn_list", "dict_fn_sin"} \cup MatrixFnKinds, {},
                            {"dict_const_c", "dict_str_str"}, "dict_empty")
-  @@ "user_constants" :> O({"dict_empty", "dict_const_c", "dict_const_x", "dict_const_pi", "dict_const_del", "dict_const_arr"}, {},
+  @@ "user_constants" :> O({"dict_empty", "dict_const_c", "dict_const_x", "dict_const_pi", "dict_const_del", "dict_const_arr",
+                            "dict_const_infty"}, {},
                            {"dict_str_str", "dict_fn_f"}, "dict_empty")
   @@ "blacklist" :> O({"list_empty", "list_fn"}, {"list_xy"}, {"list_none1"}, "list_empty")
   @@ "whitelist" :> O({"list_empty", "list_fn", "list_none1"}, {"list_xy"}, {}, "list_empty")
@@ -123,8 +127,8 @@ MathOpts(samplesDef, tolDef) ==
   @@ "tolerance" :> Tolerance(tolDef)
   @@ "metric_suffixes" :> TBool("False")
   @@ "samples" :> TCount1(samplesDef)
-  @@ "variables" :> O({"list_empty", "list_xy", "list_ab", "list_fn", "list_const"}, {}, {}, "list_empty")
-  @@ "numbered_vars" :> O({"list_empty", "list_xy", "list_ab", "list_fn", "list_const"}, {}, {}, "list_empty")
+  @@ "variables" :> O({"list_empty", "list_xy", "list_ab", "list_fn", "list_const", "list_infty"}, {}, {}, "list_empty")
+  @@ "numbered_vars" :> O({"list_empty", "list_xy", "list_ab", "list_fn", "list_const", "list_infty"}, {}, {}, "list_empty")
   @@ "sample_from" :> O({"dict_empty", "dict_sample_x"}, {}, {"dict_str_str"}, "dict_empty")
   @@ "failable_evals" :> TCount0("n:0")
   @@ "instructor_vars" :> TStrList("list_empty")
@@ -134,11 +138,11 @@ FormulaGraderOpts == Ext(Ext(ItemGraderOpts, MathOpts("n:5", "pct:0.01")),
 
 \* "Will always be 1 / an empty list / an empty dictionary / 0": the fixed value is in, other well-typed values skip
 NumericalGraderOpts == Ext(FormulaGraderOpts,
-     "user_functions" :> O({"dict_empty", "dict_fn_f", "dict_fn_sin"}, {}, {"dict_fn_rand", "dict_fn_list", "dict_const_c"}, "dict_empty")
+     "user_functions" :> O({"dict_empty", "dict_fn_f", "dict_fn_sin"} \cup MatrixFnKinds, {}, {"dict_fn_rand", "dict_fn_list", "dict_const_c"}, "dict_empty")
   @@ "tolerance" :> Tolerance("pct:5")
   @@ "samples" :> O({"int_one"}, (Ints \ {"int_one"}) \cup {"float_one"}, {}, "n:1")
-  @@ "variables" :> O({"list_empty"}, {"list_xy", "list_ab", "list_fn", "list_const"}, {}, "list_empty")
-  @@ "numbered_vars" :> O({"list_empty"}, {"list_xy", "list_ab", "list_fn", "list_const"}, {}, "list_empty")
+  @@ "variables" :> O({"list_empty"}, {"list_xy", "list_ab", "list_fn", "list_const", "list_infty"}, {}, "list_empty")
+  @@ "numbered_vars" :> O({"list_empty"}, {"list_xy", "list_ab", "list_fn", "list_const", "list_infty"}, {}, "list_empty")
   @@ "sample_from" :> O({"dict_empty"}, {"dict_sample_x"}, {}, "dict_empty")
   @@ "failable_evals" :> O({"int_zero"}, (Ints \ {"int_zero"}) \cup {"float_zero"}, {}, "n:0"))
 
@@ -343,20 +347,24 @@ MissingRequired(cls, cfg) == \E opt \in DOMAIN Options[cls] : Options[cls][opt].
 NamesOf(k) ==
   CASE k \in {"list_xy"} -> {"x", "y"}        [] k = "list_ab" -> {"a", "b"}      [] k = "list_const" -> {"pi"}
     [] k = "list_fn" -> {"sin", "cos"}        [] k = "dict_fn_f" -> {"f"}         [] k = "dict_fn_sin" -> {"sin"}
+    [] k = "dict_fn_adj" -> {"adj"}           [] k = "dict_fn_cross" -> {"cross"} [] k = "dict_fn_ctrans" -> {"ctrans"}
+    [] k = "dict_fn_det" -> {"det"}           [] k = "dict_fn_norm" -> {"norm"}   [] k = "dict_fn_trace" -> {"trace"}
+    [] k = "dict_fn_trans" -> {"trans"}       [] k = "list_infty" -> {"infty"}    [] k = "dict_const_infty" -> {"infty"}
     [] k \in {"dict_fn_rand", "dict_fn_list"} -> {"f"}
     [] k = "dict_const_c" -> {"c"}            [] k = "dict_const_x" -> {"x"}      [] k = "dict_const_pi" -> {"pi"}
     [] k = "dict_sample_x" -> {"x"}           [] OTHER -> {}
 Get(cfg, opt) == IF opt \in DOMAIN cfg THEN cfg[opt] ELSE "ABSENT"
-Nonempty(k) == k \in {"list_fn", "list_none1", "list_xy", "list_ab", "list_const"}
+Nonempty(k) == k \in {"list_fn", "list_none1", "list_xy", "list_ab", "list_const", "list_infty"}
 DefaultConstants(cls, cfg) ==
   ({"pi", "e", "i", "j"} \cup (IF cls \in {"IntegralGrader", "SumGrader"} THEN {"infty"} ELSE {})
                          \cup (IF Get(cfg, "allow_inf") = "bool_true" THEN {"infty"} ELSE {}))
   \ (IF Get(cfg, "user_constants") = "dict_const_del" THEN {"pi"} ELSE {})     \* {'pi': None} removes the default constant
-DefaultFunctionsSample == {"sin", "cos"}
+\* the default function table is per class: MatrixGrader has "all FormulaGrader functions ... as are the following extra functions"
+DefaultFunctionsSample(cls) == {"sin", "cos"} \cup (IF cls = "MatrixGrader" THEN {"adj", "cross", "ctrans", "det", "norm", "trace", "trans"} ELSE {})
 MathCross(cls, cfg) ==
   LET vars == NamesOf(Get(cfg, "variables"))       nvars == NamesOf(Get(cfg, "numbered_vars"))
       consts == NamesOf(Get(cfg, "user_constants")) funcs == NamesOf(Get(cfg, "user_functions"))
-      override == (vars \cup nvars \cup consts) \cap DefaultConstants(cls, cfg) # {} \/ funcs \cap DefaultFunctionsSample # {}
+      override == (vars \cup nvars \cup consts) \cap DefaultConstants(cls, cfg) # {} \/ funcs \cap DefaultFunctionsSample(cls) # {}
       collide == vars \cap consts # {}
       orphan == ~(NamesOf(Get(cfg, "sample_from")) \subseteq vars \cup nvars)
   IN IF Nonempty(Get(cfg, "whitelist")) /\ Nonempty(Get(cfg, "blacklist")) THEN "bad"
@@ -464,28 +472,58 @@ CanonAnswers(a) == [i \in 1..Len(a.items) |-> CanonItem(a.items[i])]
 AsItem(c) == [form |-> "dict", expect |-> c.expect, etup |-> TRUE, grade |-> c.grade, msg |-> c.msg, ok |-> c.ok, extra |-> FALSE]
 AsAnswers(cs) == [tup |-> TRUE, items |-> [i \in 1..Len(cs) |-> AsItem(cs[i])]]
 
+(* ---- the comparer a plain-string answer of a math grader is paired with (MatrixGrader docstring: "If either key is included,
+   MatrixEntryComparer is used as the default comparer for that MatrixGrader instance with the given key values.  If neither key
+   is provided, equality_comparer is used.")  ctx: the other options of the configuration (option -> kind) *)
+KindTok == "enum_proportional" :> "s:proportional" @@ "float_frac" :> "n:0.25" @@ "float_one" :> "n:1" @@ "float_zero" :> "n:0"
+        @@ "int_zero" :> "n:0" @@ "int_one" :> "n:1" @@ "str" :> "s:abc" @@ "str_empty" :> "s:" @@ "str_char" :> "s:;"
+ComparerOf(cls, ctx) ==
+  IF cls \notin {"FormulaGrader", "NumericalGrader", "MatrixGrader"} THEN [kind |-> "none", credit |-> "-", msg |-> "-"]
+  ELSE IF cls = "MatrixGrader" /\ {"entry_partial_credit", "entry_partial_msg"} \cap DOMAIN ctx # {}
+  THEN [kind |-> "entry",
+        credit |-> IF "entry_partial_credit" \in DOMAIN ctx THEN KindTok[ctx["entry_partial_credit"]]
+                   ELSE MatrixEntryComparerOpts["entry_partial_credit"].def,
+        msg |-> IF "entry_partial_msg" \in DOMAIN ctx THEN KindTok[ctx["entry_partial_msg"]]
+                ELSE MatrixEntryComparerOpts["entry_partial_msg"].def]
+  ELSE [kind |-> "equality", credit |-> "-", msg |-> "-"]
+\* answers together with other options: both must be acceptable
+AnswersInContext(cls, ctx, a) ==
+  LET e1 == Expect(cls, ctx @@ Base[cls])  e2 == AnswersExpect(a) IN
+  IF e1 = "reject" \/ e2 = "reject" THEN "reject" ELSE IF e1 = "skip" \/ e2 = "skip" THEN "skip" ELSE "accept"
+
 (* ====================================================================== answers of list graders
-   An ALTERNATIVE is [form ("list" | "string" | "dict"), entries (sequence of answers values of the subgrader), grade, msg]:
-   a Python list of entries, the delimited string of them (SingleListGrader only), or {'expect': list, grade_decimal, msg}.
-   List answers: [bare (one alternative, not wrapped in a tuple), alts (sequence of alternatives)].
-   ListGrader accepts a list or a tuple of lists only; SingleListGrader every form of the ItemGrader scheme. *)
+   An ALTERNATIVE is [form ("list" | "string" | "dict"), entries (sequence of answers values of the subgrader), more, estr,
+   grade, msg]: a Python list of entries, the delimited string of them (SingleListGrader only), or the dictionary
+   {'expect': ..., grade_decimal, msg} whose expect is the list (more = <<>>) or the TUPLE of the lists entries, more[1], more[2] ...
+   ("You may also specify a tuple of values"); estr: the lists inside the dictionary are written as delimited strings.
+   List answers: [bare (one alternative, not wrapped in a tuple), alts (sequence of alternatives), lenerr (length_error=True),
+   delim (the configured delimiter)].
+   ListGrader accepts a list or a tuple of lists only; SingleListGrader every form of the ItemGrader scheme.
+   single_list_grader.md: "If you set length_error to True, then all answers in a tuple of lists ... must have the same length";
+   without length_error the documentation does not decide lists of different lengths. *)
+AltLists(alt) == <<alt.entries>> \o alt.more
 AltExpect(cls, alt) ==
-  LET vs == {AnswersExpect(alt.entries[i]) : i \in 1..Len(alt.entries)} IN
-  IF cls = "ListGrader" /\ alt.form # "list" THEN "reject"
+  LET ls == AltLists(alt)
+      vs == UNION {{AnswersExpect(ls[k][i]) : i \in 1..Len(ls[k])} : k \in 1..Len(ls)} IN
+  IF cls = "ListGrader" /\ (alt.form # "list" \/ alt.more # <<>>) THEN "reject"
   ELSE IF "reject" \in vs \/ alt.grade \notin GradeIn \/ alt.msg \notin MsgIn THEN "reject"
-  ELSE IF "skip" \in vs \/ Len(alt.entries) = 0 \/ (cls = "ListGrader" /\ Len(alt.entries) = 1) THEN "skip"
+  ELSE IF "skip" \in vs \/ (\E k \in 1..Len(ls) : Len(ls[k]) = 0) \/ (cls = "ListGrader" /\ Len(alt.entries) = 1) THEN "skip"
   ELSE "accept"
+AllLens(la) == UNION {{Len(AltLists(la.alts[i])[k]) : k \in 1..Len(AltLists(la.alts[i]))} : i \in 1..Len(la.alts)}
 ListAnswersExpect(cls, la) ==
   LET vs == {AltExpect(cls, la.alts[i]) : i \in 1..Len(la.alts)}
-      lens == {Len(la.alts[i].entries) : i \in 1..Len(la.alts)} IN
+      lens == AllLens(la) IN
   IF "reject" \in vs THEN "reject"
-  ELSE IF "skip" \in vs \/ Cardinality(lens) > 1 THEN "skip"        \* alternatives of different lengths: not decided
+  ELSE IF Cardinality(lens) > 1 /\ cls = "SingleListGrader" /\ la.lenerr THEN "reject"
+  ELSE IF "skip" \in vs \/ Cardinality(lens) > 1 THEN "skip"        \* lists of different lengths: not decided otherwise
   ELSE "accept"
+CanonEntries(es) == [i \in 1..Len(es) |-> CanonAnswers(es[i])]
 CanonAlt(cls, alt) ==
-  LET es == [i \in 1..Len(alt.entries) |-> CanonAnswers(alt.entries[i])]
+  LET ls == AltLists(alt)
       g == IF alt.grade = "absent" THEN "g1" ELSE alt.grade IN
-  IF cls = "ListGrader" THEN es
-  ELSE [expect |-> <<es>>, grade |-> g, msg |-> IF alt.msg = "absent" THEN "m_empty" ELSE alt.msg, ok |-> GradeToOk(g)]
+  IF cls = "ListGrader" THEN CanonEntries(alt.entries)
+  ELSE [expect |-> [k \in 1..Len(ls) |-> CanonEntries(ls[k])], grade |-> g,
+        msg |-> IF alt.msg = "absent" THEN "m_empty" ELSE alt.msg, ok |-> GradeToOk(g)]
 CanonListAnswers(cls, la) == [i \in 1..Len(la.alts) |-> CanonAlt(cls, la.alts[i])]
 
 (* ====================================================================== ListGrader groupings
